@@ -246,10 +246,20 @@ def ivar(w, name):
 
 
 def isize(w, l):
+    """size value converted to a w-bit integer.  Reduction mod 2^w is a ring homomorphism on the
+    integers a size form denotes, so the form is split into its monomials: `(j + 1) as u128`
+    and `j as u128 + 1` get the same normal form."""
     l = lin(l)
     if l.is_const():
         return iconst(w, l.c)
-    return ("int", w, 0, ((("sz", l), 1),))
+    if not isinstance(l.c, int) or any(not isinstance(k, int) for _, k in l.t):
+        return ("int", w, 0, ((("sz", l), 1),))
+    d = {}
+    for m, k in l.t:
+        at = ("sz", Lin(0, ((m, 1),)))
+        d[at] = (d.get(at, 0) + k) % (1 << w)
+    ts = tuple(sorted(((at, k) for at, k in d.items() if k), key=akey))
+    return ("int", w, l.c % (1 << w), ts)
 
 
 def iadd(a, b):
@@ -306,10 +316,35 @@ def ib_simplify(atom, F):
     return None
 
 
+def _isplit(t):
+    """(size part as one Lin with signed coefficients incl. the constant, other atoms)."""
+    w = t[1]
+    half = 1 << (w - 1)
+    sg = lambda k: k - (1 << w) if k >= half else k
+    L = lin(sg(t[2]))
+    rest = []
+    for at, k in t[3]:
+        if at[0] == "sz":
+            L = L + at[1] * sg(k)
+        else:
+            rest.append((at, k))
+    return L, rest
+
+
 def iequal(a, b, F):
     if a == b:
         return True
-    if a[1] != b[1] or a[2] != b[2] or len(a[3]) != len(b[3]):
+    if a[1] != b[1]:
+        return False
+    if any(at[0] == "sz" for at, _ in a[3] + b[3]):
+        # equal as integers implies equal mod 2^w: compare the size parts as one linear form
+        La, ra = _isplit(a)
+        Lb, rb = _isplit(b)
+        if not F.prove_eq(La - Lb):
+            return False
+        a = ("int", a[1], 0, tuple(ra))
+        b = ("int", b[1], 0, tuple(rb))
+    if a[2] != b[2] or len(a[3]) != len(b[3]):
         return False
     rest = list(b[3])
     for at, k in a[3]:
